@@ -51,6 +51,10 @@ pub(super) struct Stream {
     /// Task tracking additional send capacity (i.e. window updates).
     send_task: Option<Waker>,
 
+    /// Task waiting for this stream to be opened (`SendRequest::poll_ready`).
+    /// It may be another task than the one using the stream's `SendStream`.
+    open_task: Option<Waker>,
+
     /// Frames pending for this stream being sent to the socket
     pub pending_send: buffer::Deque,
 
@@ -171,6 +175,7 @@ impl Stream {
             requested_send_capacity: 0,
             buffered_send_data: 0,
             send_task: None,
+            open_task: None,
             pending_send: buffer::Deque::new(),
             is_pending_send_capacity: false,
             next_pending_send_capacity: None,
@@ -364,10 +369,18 @@ impl Stream {
         if let Some(task) = self.send_task.take() {
             task.wake();
         }
+
+        if let Some(task) = self.open_task.take() {
+            task.wake();
+        }
     }
 
     pub fn wait_send(&mut self, cx: &Context) {
         self.send_task = Some(cx.waker().clone());
+    }
+
+    pub fn wait_open(&mut self, cx: &Context) {
+        self.open_task = Some(cx.waker().clone());
     }
 
     pub fn notify_recv(&mut self) {
